@@ -92,6 +92,7 @@ func (cdb *CachedDatabase) CleanupExpiredCache() map[string]int {
 func (cdb *CachedDatabase) UpdateDatabase(commands []Command) {
 	cdb.Database.Commands = commands
 	cdb.Database.BuildUniversalIndex() // Rebuild universal index
+	cdb.Database.buildTFIDFSearcher()  // and the TF-IDF re-ranker, which would otherwise keep ranking the old commands
 	cdb.InvalidateCache()              // Invalidate cache when database is updated
 }
 
